@@ -275,7 +275,7 @@ def run(tier: str, seed: int) -> int:
                 cleanup(res)
             items.sort(key=lambda it: json.dumps(tlaval.to_jsonable(it[0]), sort_keys=True))
             if tier == "quick":
-                k = {"parse": 400, "spec": 72, "simulate": 24, "fit": 10, "drt": 2}[mode]
+                k = {"parse": 1500, "spec": 72, "simulate": 40, "fit": 12, "drt": 4}[mode]
                 items = rng.sample(items, min(k, len(items)))
             elif mode == "fit":
                 items = rng.sample(items, 36)
